@@ -51,7 +51,6 @@ def correspondence(ctx):
                          {"scenario": bb.scenario_dump(s), "observable": "balances=aggregate(unspent)"})
     # outside the property's hypothesis (per-address sums < 2^64) but inside the model: the u64 sum of `on_complete` panics in the
     # dev profile exactly when a balance leaves u64 (model: exit 101), and not one unit below
-    from .. import gen_history as GH
     pan = []
     for name, vals in [("balance-overflow", [1 << 63, 1 << 63]), ("balance-max", [1 << 63, (1 << 63) - 1]), ("balance-overflow-3", [(1 << 64) - 1, 1, 5])]:
         addr = GC.spk(r, "bitcoin", "p2pkh")
